@@ -250,14 +250,18 @@ ReadClause(D, q) ==
                 ELSE IF \E k \in 1..Len(q.idx) : AtIx(D, q.idx[k]) = 0 THEN "sparse_indices_only_filled"
                 ELSE "ok"
            [] q.r = "sparse_values" ->
-                \* vshape = numpy shape of the returned values; idx = sparse_indices read alongside
+                \* vshape = numpy shape of the returned values: one value per filled cell, as a bag
                 IF Len(q.vshape) # 1 THEN "sparse_values_rank_1"
-                ELSE IF Has(q, "idx") THEN
-                     (IF Len(q.idx) # Len(q.v) THEN "sparse_values_one_per_index"
-                      ELSE IF \E k \in 1..Len(q.idx) : InShape(q.idx[k], D.shape) /\ q.v[k] # AtIx(D, q.idx[k])
-                      THEN "sparse_values_match_dense" ELSE "ok")
-                ELSE IF Len(SelectSeq(q.v, LAMBDA x : x # 0)) # Cardinality(FilledIx(D)) THEN "sparse_values_count"
-                ELSE "ok"
+                ELSE IF \E x \in Range(q.v) \cup Range(D.flat) : x # 0 /\
+                          Cardinality({k \in 1..Len(q.v) : q.v[k] = x}) # Cardinality({k \in 1..Len(D.flat) : D.flat[k] = x})
+                THEN "sparse_values_are_the_nonzero_values" ELSE "ok"
+           [] q.r = "sparse_pairs" ->
+                \* sparse_indices[k] and sparse_values[k] belong together (judged only when the
+                \* indices themselves are acceptable; otherwise the sparse_indices read reports)
+                IF Len(q.idx) # Len(q.v) THEN "sparse_values_one_per_index"
+                ELSE IF (\A k \in 1..Len(q.idx) : InShape(q.idx[k], D.shape)) /\ Distinct(q.idx)
+                        /\ \E k \in 1..Len(q.idx) : q.v[k] # AtIx(D, q.idx[k])
+                THEN "sparse_values_aligned_with_indices" ELSE "ok"
            [] q.r \in {"gather_nd", "gather"} ->
                 IF Len(q.v) # Len(q.arg) THEN "gather_one_value_per_index"
                 ELSE IF \E k \in 1..Len(q.arg) : q.v[k] # AtIx(D, q.arg[k]) THEN "gather_equals_dense_at_indices"
@@ -382,7 +386,7 @@ RefSane ==
            /\ DenseRuns(BrleDense(c.e)) = BrleRuns(c.e)
            /\ Expand(Rev(BrleRuns(c.e))) = Rev(BrleDense(c.e))
            /\ Expand(Canon(NotRuns(BrleRuns(c.e)))) = [k \in 1..Len(BrleDense(c.e)) |-> 1 - BrleDense(c.e)[k]]
-    /\ (c.fn = "enc") =>
+    /\ (c.fn = "enc" /\ Len(c.chain) <= 1) =>
            LET A == Arr(c.data, c.shape) nd == Len(c.shape) IN
            /\ Len(c.data) = Prod(c.shape)
            /\ \A k \in 1..Len(c.data) : Ravel(Unravel(k - 1, c.shape), c.shape) = k - 1
